@@ -108,7 +108,7 @@ def run(tier, config):
         rep.add("gamedig_cli|constructs-TimeoutSettings", "C18:D1", not ext, "the CLI crate never builds TimeoutSettings field by field" if not ext else "constructed in %s" % ext, nontrivial=False)
     # D2 settings-dependent panic sites
     rules = {}
-    n2 = K.ledger_obligations(rep, c, "C18", is_settings_site, rules=rules, label="settings-site")
+    n2 = K.ledger_obligations(rep, c, "C18", lambda s: is_settings_site(s) or "@Duration" in s.what or "Duration::" in s.what, rules=rules, label="settings-site")
     # the retry helper must not have an unchecked increment: covered by the ledger above when present; also make sure
     # the socket setters' results are not unwrapped anywhere else
     unwraps = Q.find_calls(c, lambda k, p: k.split("@")[0] in ("Result::unwrap", "Result::expect"))
